@@ -12,7 +12,8 @@
 (*  type kind id source dest username hasuser privileged group perms value *)
 (*  error noecho label replace tracks data request tok                     *)
 (*  (tok = [g, perms, exp, sub, user] : the token a maketoken asks for;    *)
-(*   clear = [user, id] : what a clearchat designates)                     *)
+(*   clear = [user, id] : what a clearchat designates; seqno: the number n  *)
+(*   of a chat whose id is "h<n>", else -1)                                 *)
 (* Monitor state s:                                                        *)
 (*  st[c]    "new" | "member" | "refused" | "left" | "closed"              *)
 (*  grp[c] usr[c]  group and username the server assigned (from joined)    *)
@@ -30,10 +31,13 @@ EXTENDS Integers, Sequences, FiniteSets
 None == [none |-> TRUE]
 SetOfSeq(sq) == {sq[i] : i \in 1..Len(sq)}
 
-InitSig(exp) == [st |-> <<>>, grp |-> <<>>, usr |-> <<>>, told |-> <<>>, view |-> <<>>,
+\* pipe: the driver did not wait for quiescence between stimuli (clauses that need to know the
+\* membership at the instant of a delivery are then not applied)
+InitSig(exp) == [pipe |-> FALSE, st |-> <<>>, grp |-> <<>>, usr |-> <<>>, told |-> <<>>, view |-> <<>>,
                  cur |-> None, exp |-> exp,
                  hist |-> <<>>,    \* group -> sequence of [id, src, val] : broadcast chats in the history
-                 hrecv |-> <<>>]   \* client -> sequence of [id, src, val] replayed to it since it joined
+                 hrecv |-> <<>>,   \* client -> sequence of [id, src, val] replayed to it since it joined
+                 racing |-> {}]    \* clients whose join was sent while others were chatting (marked by the driver)
 
 HistMax == 50
 LastN(sq, n) == IF Len(sq) <= n THEN sq ELSE SubSeq(sq, Len(sq) - n + 1, Len(sq))
@@ -94,7 +98,8 @@ OnSent(s, c, m) ==
   IN [s EXCEPT !.cur = [c |-> c, m |-> m, auth |-> auth, spoof |-> spoof,
                         \* members of the sender's group when it sent (recipients of a broadcast)
                         mem |-> Members(s, g), got |-> {}],
-               !.hist = IF g = "" THEN @ ELSE Put(@, g, h1)]
+               !.hist = IF g = "" THEN @ ELSE Put(@, g, h1),
+               !.racing = IF m.type = "join" /\ m.kind = "join" /\ m.data # "" THEN @ \cup {c} ELSE @]
 
 \* c sent raw text that is not a well-formed message (only its own connection may suffer)
 OnSentRaw(s, c) ==
@@ -128,13 +133,17 @@ OnRecv(s, c, m) ==
                 /\ ~(SetOfSeq(m.tgroups) \subseteq {g0})
              THEN "C11_A3_token_of_another_group_revealed_or_edited" ELSE "ok"
       \* ---- C15: chat / usermessage authenticity and addressing
-      ischat == m.type \in {"chat", "usermessage"} /\ m.source # ""
-      sender == m.source
+      \* the sender: the source the message carries, or -- for a message without source that is the
+      \* echo of the current stimulus -- the client that sent that stimulus
+      echo == stim /\ cur.m.type = m.type /\ cur.m.type \in {"chat", "usermessage"} /\ cur.m.value = m.value /\ cur.m.id = m.id
+      sender == IF m.source # "" THEN m.source ELSE IF echo THEN cur.c ELSE ""
+      ischat == m.type \in {"chat", "usermessage"} /\ sender # ""
       c15 == IF ~ischat THEN "ok"
-             ELSE IF ~IsMember(s, sender) THEN "C15_message_from_non_member_source"
+             ELSE IF ~s.pipe /\ ~IsMember(s, sender) THEN "C15_message_from_non_member_source"
              ELSE IF m.hasuser = 1 /\ m.username # Get(s.usr, sender, "") THEN "C15_message_with_forged_username"
              ELSE IF (m.privileged = 1) # ("op" \in Told(s, sender)) THEN "C15_privileged_flag_wrong"
-             ELSE IF Get(s.grp, sender, "") # Get(s.grp, c, "?") \/ ~IsMember(s, c)
+             \* (a client whose join is in progress may get broadcasts before its own joined message)
+             ELSE IF ~s.pipe /\ ((IsMember(s, c) /\ Get(s.grp, sender, "") # Get(s.grp, c, "?")) \/ St(s, c) \in {"refused", "left", "closed"})
                   THEN "C15_message_crossed_group_boundary"
              ELSE IF m.dest # "" /\ m.dest # c THEN "C15_directed_message_delivered_to_someone_else"
              ELSE IF stim /\ cur.c = sender /\ cur.m.type = m.type /\ cur.m.value = m.value
@@ -176,11 +185,16 @@ OnRecv(s, c, m) ==
                      ELSE Put(v0, m.id, [username |-> m.username, perms |-> SetOfSeq(m.perms)]))]
             ELSE s1
       s2b == IF m.type = "chathistory"
-             THEN [s2 EXCEPT !.hrecv = Put(@, c, Append(Get(s2.hrecv, c, <<>>), [id |-> m.id, src |-> m.source, val |-> m.value]))]
+             THEN [s2 EXCEPT !.hrecv = Put(@, c, Append(Get(s2.hrecv, c, <<>>), [id |-> m.id, src |-> m.source, val |-> m.value, seqno |-> m.seqno]))]
              ELSE IF m.type = "joined" /\ m.kind = "join" THEN [s2 EXCEPT !.hrecv = Put(@, c, <<>>)]
              ELSE s2
       s3 == IF stim THEN [s2b EXCEPT !.cur.got = @ \cup {<<c, m.type, m.kind>>}] ELSE s2b
-      bads == SelectSeq(<<c11, a3, a3e, c15, c08, c14>>, LAMBDA x : x # "ok")
+      \* ---- C15 (history, racing joins): every replayed entry continues the run of numbered chats
+      hp == Get(s.hrecv, c, <<>>)
+      c15h == IF m.type = "chathistory" /\ c \in s.racing /\ Len(hp) > 0
+                 /\ ~(m.seqno >= 0 /\ m.seqno = hp[Len(hp)].seqno + 1)
+              THEN "C15_history_replay_not_an_in_order_run_of_the_chats" ELSE "ok"
+      bads == SelectSeq(<<c11, a3, a3e, c15, c15h, c08, c14>>, LAMBDA x : x # "ok")
   IN [s |-> s3, v |-> IF bads = <<>> THEN "ok" ELSE bads[1]]
 
 \* a socket was closed by the server (c did not close it itself)
@@ -192,6 +206,10 @@ OnClosed(s, c) ==
       own == cur # None /\ cur.c = c
   IN [s |-> [s EXCEPT !.st = Put(@, c, "closed"), !.told = Put(@, c, {})],
       v |-> IF ~(own \/ kicked) THEN "C12_R3_bystander_connection_closed" ELSE "ok"]
+
+\* c opened a (new) connection
+OnOpen(s, c) == [s EXCEPT !.st = Put(@, c, "new"), !.told = Put(@, c, {}), !.view = Put(@, c, <<>>),
+                          !.grp = Put(@, c, ""), !.usr = Put(@, c, "")]
 
 \* the driver dropped c's connection, or c asked to leave
 OnGone(s, c) == [s EXCEPT !.st = Put(@, c, "closed"), !.told = Put(@, c, {}), !.view = Put(@, c, <<>>),
@@ -205,9 +223,17 @@ OnSettled(s) ==
       joined == cur # None /\ cur.m.type = "join" /\ cur.m.kind = "join" /\ IsMember(s, cur.c)
                 /\ <<cur.c, "joined", "join">> \in cur.got
       want == IF joined THEN Get(s.hist, Get(s.grp, cur.c, ""), <<>>) ELSE <<>>
-      gotten == IF joined THEN Get(s.hrecv, cur.c, <<>>) ELSE <<>>
-  IN [s |-> [s EXCEPT !.cur = None],
-      v |-> IF joined /\ Len(gotten) > HistMax THEN "C15_history_longer_than_50"
+      g0 == IF joined THEN Get(s.hrecv, cur.c, <<>>) ELSE <<>>
+      gotten == [i \in 1..Len(g0) |-> [id |-> g0[i].id, src |-> g0[i].src, val |-> g0[i].val]]
+      \* a replay taken while others were chatting (the driver marks such joins "racing"): it must still
+      \* be an in-order, gap-free run of the numbered broadcast chats
+      Run(rg) == Len(rg) <= HistMax /\ \A i \in 1..(Len(rg) - 1) : rg[i].seqno >= 0 /\ rg[i + 1].seqno = rg[i].seqno + 1
+      racebad == \E c \in s.racing : ~Run(Get(s.hrecv, c, <<>>))
+      racing == cur # None /\ cur.c \in s.racing
+  IN [s |-> [s EXCEPT !.cur = None, !.racing = {}],
+      v |-> IF racebad THEN "C15_history_replay_not_an_in_order_run_of_the_chats"
+            ELSE IF racing THEN "ok"
+            ELSE IF joined /\ Len(gotten) > HistMax THEN "C15_history_longer_than_50"
             ELSE IF joined /\ gotten # want THEN "C15_history_replay_differs_from_broadcast_chats"
             ELSE "ok"]
 
